@@ -218,13 +218,10 @@ pub(crate) fn subcommands(roff: &mut Roff, cmd: &clap::Command, section: &str) {
     }
 }
 
-pub(crate) fn version(cmd: &clap::Command) -> String {
-    format!(
-        "v{}",
-        cmd.get_long_version()
-            .or_else(|| cmd.get_version())
-            .unwrap()
-    )
+pub(crate) fn version(cmd: &clap::Command) -> Option<String> {
+    cmd.get_long_version()
+        .or_else(|| cmd.get_version())
+        .map(|version| format!("v{version}"))
 }
 
 pub(crate) fn after_help(roff: &mut Roff, cmd: &clap::Command) {
